@@ -3,9 +3,16 @@ package main
 import (
 	"errors"
 	"fmt"
+	"go/ast"
+	goparser "go/parser"
+	"go/token"
 	"math"
 	"math/big"
+	"os"
+	"path/filepath"
 	"regexp"
+	"sort"
+	"strconv"
 	"strings"
 
 	"github.com/biscuit-auth/biscuit-go/v2/datalog"
@@ -500,6 +507,32 @@ func runC06(res *Result, rng *RNG, tier string, outDir string) {
 		exprDescs = append(exprDescs, "malformed "+es)
 	}
 
+	// ---- (d) integer boundary sweep: arithmetic and comparison operators over the integer panel
+	ipanel := c06IntPanel(rng.Fork(), tier)
+	var intRows, intDescs []string
+	for _, op := range []int{9, 10, 11, 12, 0, 4} {
+		for i, lv := range ipanel {
+			l := aInt(lv)
+			row := make([]string, len(ipanel))
+			for j, rv := range ipanel {
+				r := aInt(rv)
+				got := evalGo(SExpr{{Kind: 0, Val: l}, {Kind: 0, Val: r}, {Kind: 2, Bin: op}}, nil)
+				row[j] = got.coq()
+				want := refBinary(op, l, r)
+				res.Count(fmt.Sprintf("int %d %d %d", op, lv, rv), true)
+				res.Dist("intsweep:" + binNames[op])
+				replay := map[string]interface{}{"op": binNames[op], "left": l.String(), "right": r.String(), "got": got.String(), "want": want.String()}
+				if got.Panic != "" {
+					res.Violate("panic:"+binNames[op]+":int:int", fmt.Sprintf("%s on %s, %s panicked: %s", binNames[op], l, r, got.Panic), replay)
+				} else if !obsAgree(got, want) {
+					res.Violate("table:"+binNames[op]+":int:int", fmt.Sprintf("%s on %s, %s gives %s, exact integer arithmetic says %s", binNames[op], l, r, got, want), replay)
+				}
+			}
+			intRows = append(intRows, fmt.Sprintf("(%s, %d, %s)", binNames[op], i, coqList(row)))
+			intDescs = append(intDescs, fmt.Sprintf("intsweep %s left=%d", binNames[op], lv))
+		}
+	}
+
 	// ---- emit
 	rxItems := []string{}
 	for k, v := range rxTable {
@@ -519,13 +552,129 @@ func runC06(res *Result, rng *RNG, tier string, outDir string) {
 	cf.Raw("Definition Mbin := Eval vm_compute in mismatches (bin_row_ok (orx rx_tbl) panel) bin_rows.\nPrint Mbin.\n")
 	cf.Raw("Definition Mun := Eval vm_compute in mismatches (un_row_ok (orx rx_tbl) panel) un_rows.\nPrint Mun.\n")
 	cf.Raw("Definition Mexpr := Eval vm_compute in mismatches (expr_ok (orx rx_tbl)) ecases.\nPrint Mexpr.\n")
-	res.ModelCases = len(binRows)*len(panel) + len(unRows)*len(panel) + len(exprCases)
-	res.Extra["group_sizes"] = []int{len(binRows), len(unRows), len(exprCases)}
+	ipitems := make([]string, len(ipanel))
+	for i, v := range ipanel {
+		ipitems[i] = aInt(v).coq()
+	}
+	// the integer sweep goes to files of its own so that it is evaluated in parallel
+	const intShard = 110
+	groups := []map[string]interface{}{{"file": "Cases_C06.v", "sizes": []int{len(binRows), len(unRows), len(exprCases)}}}
+	for k, start := 0, 0; start < len(intRows); k, start = k+1, start+intShard {
+		end := start + intShard
+		if end > len(intRows) {
+			end = len(intRows)
+		}
+		cfi := NewCasesFile("Base Term Expr Corr")
+		cfi.Raw("Definition ipanel : list term := " + coqList(ipitems) + ".\n")
+		cfi.Raw("Definition int_rows : list (binop * N * list (obs term)) := [\n  " + joinLines(intRows[start:end]) + "].\n")
+		cfi.Raw("Definition Mint := Eval vm_compute in mismatches (bin_row_ok (orx []) ipanel) int_rows.\nPrint Mint.\n")
+		name := fmt.Sprintf("Cases_C06_int%02d.v", k)
+		cfi.WriteTo(outDir, name)
+		groups = append(groups, map[string]interface{}{"file": name, "sizes": []int{end - start}})
+	}
+	res.Extra["groups"] = groups
+	res.ModelCases = len(binRows)*len(panel) + len(unRows)*len(panel) + len(exprCases) + len(intRows)*len(ipanel)
+	res.Extra["group_sizes"] = []int{len(binRows), len(unRows), len(exprCases), len(intRows)}
+	res.Extra["int_panel_size"] = len(ipanel)
+	res.Extra["mined_literals"] = minedIntLiterals()
 	res.CaseDescs = append(res.CaseDescs, exprDescs...)
+	res.CaseDescs = append(res.CaseDescs, intDescs...)
 	res.Exhaustive = false
 	res.Extra["panel_size"] = len(panel)
 	res.Extra["sweep_pairs_per_operator"] = len(panel) * len(panel)
 	cf.WriteTo(outDir, "Cases_C06.v")
+}
+
+// minedIntLiterals returns the integer literals (> 255) written in the non-test Go sources of
+// the library's datalog package and root package: thresholds a fast path or a guard compares
+// against are exactly the values at which arithmetic behaviour can change.
+func minedIntLiterals() []int64 {
+	repo := os.Getenv("VERIF_REPO")
+	if repo == "" {
+		repo = "/repo"
+	}
+	seen := map[int64]bool{}
+	var out []int64
+	for _, dir := range []string{repo, filepath.Join(repo, "datalog"), filepath.Join(repo, "parser")} {
+		ents, err := os.ReadDir(dir)
+		if err != nil {
+			continue
+		}
+		for _, e := range ents {
+			n := e.Name()
+			if e.IsDir() || !strings.HasSuffix(n, ".go") || strings.HasSuffix(n, "_test.go") || strings.HasSuffix(n, ".pb.go") {
+				continue
+			}
+			fset := token.NewFileSet()
+			f, err := goparser.ParseFile(fset, filepath.Join(dir, n), nil, 0)
+			if err != nil {
+				continue
+			}
+			ast.Inspect(f, func(nd ast.Node) bool {
+				if bl, ok := nd.(*ast.BasicLit); ok && bl.Kind == token.INT {
+					txt := strings.ReplaceAll(bl.Value, "_", "")
+					var v int64
+					if u, err := strconv.ParseUint(txt, 0, 64); err == nil {
+						v = int64(u)
+					} else {
+						return true
+					}
+					if (v > 255 || v < -255) && !seen[v] {
+						seen[v] = true
+						out = append(out, v)
+					}
+				}
+				return true
+			})
+		}
+	}
+	sort.Slice(out, func(i, j int) bool { return out[i] < out[j] })
+	return out
+}
+
+// c06IntPanel: 64-bit boundary values, powers of two and their neighbours, the square-root
+// and cube-root thresholds of 2^63, every literal mined from the source with its neighbours,
+// and random pairs straddling the multiplication overflow boundary.
+func c06IntPanel(rng *RNG, tier string) []int64 {
+	seen := map[int64]bool{}
+	var p []int64
+	add := func(v int64) {
+		if !seen[v] {
+			seen[v] = true
+			p = append(p, v)
+		}
+	}
+	for _, v := range []int64{0, 1, -1, 2, -2, 3, 10, math.MaxInt64, math.MinInt64, math.MaxInt64 - 1, math.MinInt64 + 1,
+		3037000499, 3037000500, -3037000499, -3037000500, 2097151, 2097152, 2642245, 2642246} {
+		add(v)
+	}
+	for _, k := range []uint{15, 16, 31, 32, 33, 62} {
+		add(int64(1)<<k - 1)
+		add(int64(1) << k)
+		add(-(int64(1) << k))
+		add(-(int64(1) << k) - 1)
+	}
+	for _, v := range minedIntLiterals() {
+		add(v - 1)
+		add(v)
+		add(v + 1)
+		add(-v)
+	}
+	n := 6
+	if tier == "thorough" {
+		n = 30
+	}
+	for i := 0; i < n; i++ {
+		a := int64(rng.U64()>>uint(1+rng.Intn(60))) + 2
+		b := math.MaxInt64 / a
+		add(a)
+		add(b)
+		add(b + 1)
+		if rng.Bool() {
+			add(-b - 1)
+		}
+	}
+	return p
 }
 
 func kindName(t STerm) string {
